@@ -368,6 +368,17 @@ class Exec:
         kwonly = [a.arg for a in params.kwonlyargs]
         extra = {}
         for k, v in kw.items():
+            if type(k).__name__ == "SymKey":
+                # a keyword whose name is symbolic: decide against every parameter name
+                hit = None
+                for nme in names + kwonly:
+                    if self.branch(k.term == z3.StringVal(nme)):
+                        hit = nme
+                        break
+                if hit is None:
+                    extra[k] = v
+                    continue
+                k = hit
             if k in names or k in kwonly:
                 if k in bound:
                     self.raise_("TypeError", node, "call")
@@ -533,11 +544,11 @@ class Exec:
                 base = self.eval(t.value, fr)
                 idx = self.eval_index(t.slice, fr)
                 if isinstance(base, dict):
-                    if is_sym(idx):
-                        raise Unsupported("del d[symbolic]")
-                    if idx not in base:
+                    from . import dicts
+                    k = dicts.find(self.registry, self, base, idx, t)
+                    if k is None:
                         self.raise_("KeyError", t, "safety")
-                    del base[idx]
+                    del base[k]
                 else:
                     raise Unsupported("del subscript")
             elif isinstance(t, ast.Attribute):
@@ -1031,9 +1042,7 @@ class Exec:
                 d.update(self.eval(v, fr))
             else:
                 kk = self.eval(k, fr)
-                if is_sym(kk):
-                    raise Unsupported("dict literal with symbolic key")
-                d[kk] = self.eval(v, fr)
+                self.setitem(d, kk, self.eval(v, fr), e)
         return d
 
     def ex_JoinedStr(self, e, fr):
@@ -1162,9 +1171,7 @@ class Exec:
         pairs = self.comprehension(e, fr, lambda f: (self.eval(e.key, f), self.eval(e.value, f)))
         d = {}
         for k, v in pairs:
-            if is_sym(k):
-                raise Unsupported("dict comprehension with symbolic key")
-            d[k] = v
+            self.setitem(d, k, v, e)
         return d
 
     def comprehension(self, e, fr, elt):
@@ -1328,7 +1335,7 @@ class Exec:
     def call_closure(self, clo, args, kwargs, node):
         func = clo.func
         c = self.contracts.get(func.key)
-        if c is not None and not c.inline_at_calls and (self.top is None or c is not self.top or self.inline_depth > 0):
+        if c is not None and not c.inline_at_calls and c.has_result() and (self.top is None or c is not self.top or self.inline_depth > 0):
             return self.apply_contract(c, clo, args, kwargs, node)
         return self.call_repo_function(func, args, kwargs, clo.env, clo.self_obj, node)
 
